@@ -94,6 +94,24 @@ func genC12(r *core.Rand, run int) *MuxScenario {
 		}
 		sc.Reqs = append(sc.Reqs, sp)
 	}
+	// the same route asked for again by a later request (what one request
+	// leaves behind on the Mux, another one finds)
+	if r.Chance(1, 2) {
+		var raws []int
+		for i, q := range sc.Reqs {
+			if q.Raw != nil {
+				raws = append(raws, i)
+			}
+		}
+		for k := r.Intn(3); k >= 0 && len(raws) > 0; k-- {
+			dup := sc.Reqs[raws[r.Intn(len(raws))]]
+			dup.ID = len(sc.Reqs) + 1
+			dup.Weight = 1
+			raw := *dup.Raw
+			dup.Raw = &raw
+			sc.Reqs = append(sc.Reqs, dup)
+		}
+	}
 	sc.Monitor = 2 + r.Intn(6)
 	return sc
 }
